@@ -741,6 +741,13 @@ class Analysis(object):
                 fr.rets.add(S)
         elif isinstance(s, ast.If):
             self.expr(fr, s.test)
+            verdict = self._static_isinstance(fr, s.test)
+            if verdict is True:
+                self.block(fr, s.body)
+                return
+            if verdict is False:
+                self.block(fr, s.orelse)
+                return
             e0 = dict(fr.env)
             self.block(fr, s.body)
             e1 = fr.env
@@ -822,6 +829,27 @@ class Analysis(object):
             pass
         else:
             self.unmodelled.append((fr.func.qualname, type(s).__name__))
+
+    def _static_isinstance(self, fr, test):
+        """isinstance(x, C) decided statically when x is known to be an instance of one
+        repository class (event dispatch)."""
+        if not (isinstance(test, ast.Call) and isinstance(test.func, ast.Name)
+                and test.func.id == "isinstance" and len(test.args) == 2
+                and isinstance(test.args[0], ast.Name)):
+            return None
+        av = fr.env.get(test.args[0].id)
+        if not av or not all(t[0] == "K" and str(t[1]).startswith("EVENT:") for t in av):
+            return None
+        tgt = self.prog.resolve_name_expr(test.args[1], fr.func.module)
+        if not isinstance(tgt, ClassInfo):
+            return None
+        verdicts = set()
+        for t in av:
+            ci = self._class(t[1][6:])
+            if ci is None:
+                return None
+            verdicts.add(tgt in self.prog.mro(ci))
+        return verdicts.pop() if len(verdicts) == 1 else None
 
     def join(self, a, b):
         out = dict(a)
@@ -1303,7 +1331,7 @@ class Analysis(object):
                 if cq == q:
                     return frozenset([("K", kind)])
             if any(n.startswith("events.") for n in names):
-                return frozenset([("K", "EVENT")])
+                return frozenset([("K", "EVENT:%s" % q)])
             return frozenset([("K", "CLS:%s" % q)])
         ci = self._class(q)
         init = self.prog.lookup_method(ci, "__init__")
@@ -1373,7 +1401,9 @@ class Analysis(object):
             return self.field(recv, key) | a1
         if name in ("pop", "popitem", "remove", "clear", "sort", "reverse", "discard"):
             key = self._argkey(fr, e, 0) if name == "pop" and args else "*"
-            self.store(fr, recv, None, EMPTY, name, e)
+            # dict.pop('k'): the write concerns field k; list.pop()/remove/...: the container
+            constkey = key if (name == "pop" and key != "*" and not key.lstrip("-").isdigit()) else None
+            self.store(fr, recv, constkey, EMPTY, name, e)
             if name == "pop":
                 return self.field(recv, key) | a1
             if name == "popitem":
